@@ -15,7 +15,7 @@
                creation-time run state: N strstbl NULL, I indent != 0, L lang, U use_strtbl, C output_charset,
                O any other run-state field; '-' if none
    ed <ops>  same ops on one encoder; answer per run: pre-run dump | tree lang,charset,output type | status |
-             post-run dump | post-reset dump   (29 fields in declaration order) */
+             post-run dump | post-reset dump   (34 fields in declaration order) */
 #include "vh.h"
 #include "c15_defs.h"
 #include "wbxml_encoder.c"
@@ -70,7 +70,7 @@ static void shim_after_reset(WBXMLEncoder *e, const Caller *c) {
 }
 
 static void enc_dump(WBXMLEncoder *e, FILE *f) {
-    fprintf(f, "%d,%d,%d,%d,%d,%d,%d,%d,%u,%u,%d,%d,%d,%d,%u,%u,%d,%d,%d,%u,%u,%d,%d,%d,%d,%d,%d,%u,%d",
+    fprintf(f, "%d,%d,%d,%d,%d,%d,%d,%d,%u,%u,%d,%d,%d,%d,%u,%u,%d,%d,%d,%u,%u,%d,%d,%d,%d,%d,%d,%u,%u,%u,%u,%d,%d,%d",
             e->tree != NULL, e->lang ? (int) e->lang->langID : 0, e->output != NULL, e->output_header != NULL,
             e->current_tag != NULL, e->current_text_parent != NULL, e->current_attr != NULL, e->current_node != NULL,
             (unsigned) e->tagCodePage, (unsigned) e->attrCodePage, (int) e->ignore_empty_text, (int) e->remove_text_blanks,
@@ -78,7 +78,8 @@ static void enc_dump(WBXMLEncoder *e, FILE *f) {
             (int) e->in_content, (int) e->in_cdata, e->cdata != NULL,
             e->strstbl ? 1 + (unsigned) wbxml_list_len(e->strstbl) : 0, (unsigned) e->strstbl_len, (int) e->use_strtbl,
             (int) e->xml_encode_header, (int) e->produce_anonymous, (int) e->wbxml_version, (int) e->output_charset,
-            (int) e->flow_mode, (unsigned) e->pre_last_node_len, (int) e->textual_publicid);
+            (int) e->flow_mode, (unsigned) e->pre_last_node_len, (unsigned) e->pre_last_tagCodePage, (unsigned) e->pre_last_attrCodePage,
+            (unsigned) e->pre_last_indent, (int) e->pre_last_in_content, e->pre_last_tag != NULL, (int) e->textual_publicid);
 }
 
 static void flags(WBXMLEncoder *e, const Caller *c, char *out) {
@@ -90,7 +91,8 @@ static void flags(WBXMLEncoder *e, const Caller *c, char *out) {
     if ((int) e->output_charset != c->charset) out[n++] = 'C';
     if (e->tree || e->output || e->output_header || e->current_tag || e->current_text_parent || e->current_attr ||
         e->current_node || e->tagCodePage || e->attrCodePage || e->in_content || e->in_cdata || e->cdata ||
-        e->strstbl_len || e->pre_last_node_len || (e->strstbl && wbxml_list_len(e->strstbl)))
+        e->strstbl_len || e->pre_last_node_len || e->pre_last_tagCodePage || e->pre_last_attrCodePage || e->pre_last_indent ||
+        e->pre_last_in_content || e->pre_last_tag || (e->strstbl && wbxml_list_len(e->strstbl)))
         out[n++] = 'O';
     if ((int) e->ignore_empty_text != c->ignore || (int) e->remove_text_blanks != c->strip || (int) e->produce_anonymous != c->anon ||
         (int) e->wbxml_version != c->version || (int) e->xml_gen_type != c->gen || (int) e->indent_delta != c->indent ||
